@@ -60,7 +60,7 @@ let cov : (string, int) Hashtbl.t = Hashtbl.create 32
 let () = at_exit (fun () -> if cov_on then Hashtbl.iter (fun k v -> Printf.eprintf "cov %s %d\n" k v) cov)
 
 (* same loop as cos_run: the schedule, then round-robin until every thread has finished *)
-let run_sched c0 nt sched maxrounds =
+let run_sched ?(obs = fun _ _ _ -> ()) c0 nt sched maxrounds =
   let c = ref c0 in
   let steps = Array.make nt 0 in
   let fin t = match List.nth_opt !c.g_thr t with Some th -> th_finished th | None -> true in
@@ -79,7 +79,9 @@ let run_sched c0 nt sched maxrounds =
         let key = name ^ (if stutter then "-blocked" else "") in
         Hashtbl.replace cov key (1 + (try Hashtbl.find cov key with Not_found -> 0))
       end;
-      c := cstep !c (nat_of_int t) end in
+      let before = List.nth !c.g_thr t in
+      c := cstep !c (nat_of_int t);
+      obs t before !c end in
   List.iter st sched;
   let k = ref 0 and dl = ref false in
   while not (all_done !c) && not !dl do
@@ -95,6 +97,72 @@ let cop_str o r inv resp =
 let cop_pending o =
   let (n, k) = match o with CIns (k, _) -> ("i", k) | CFind k -> ("f", k) | CRem k -> ("r", k) in
   Printf.sprintf " %s:%s:?@-1--1" n (string_of_n k)
+
+(* ---- the proved critical-section model (HashTLinDefs.lstep) follows every run of the atomic-step model:
+   each time a thread of the atomic-step model gets through a lock acquisition / section boundary, the
+   corresponding step(s) of lstep are taken; lstep must never be blocked, must log the same results in
+   the same per-thread order and must end with the same stored items in the same buckets of the same
+   tables (tables left without items are ignored: an emptied table can stay linked in the code). *)
+let lin_state : lcfg option ref = ref None
+let lin_err : string option ref = ref None
+let lin_fail msg = if !lin_err = None then lin_err := Some msg
+let lin_emit t =
+  match !lin_state with
+  | None -> ()
+  | Some l ->
+    let l' = lstep l (nat_of_int t) in
+    if l'.l_thr = l.l_thr && l'.l_h = l.l_h then lin_fail (Printf.sprintf "step of thread %d is blocked" t);
+    lin_state := Some l'
+let lin_has_table bits =
+  match !lin_state with
+  | None -> false
+  | Some l -> List.exists (fun tb -> int_of_nat tb.t_bits = bits) l.l_h.h_tabs
+let lin_obs t (before : thread) (after : cfg) =
+  let th = List.nth after.g_thr t in
+  let e () = lin_emit t in
+  let to_end_miss = (match th.th_pc with PUnlockTop None -> true | _ -> false) in
+  match before.th_pc with
+  | PRdLock | PRdWait _ -> (match th.th_pc with PLockTop -> e () | _ -> ())
+  | PLockTop ->
+    if th.th_pc <> PLockTop then begin
+      e (); e ();
+      (* a miss with no older table: the walk ends at once *)
+      (match before.th_ops with
+       | (CFind _ | CRem _) :: _ when to_end_miss -> e ()
+       | _ -> ())
+    end
+  | PLockOld (_, head) ->
+    (match th.th_pc with
+     | PLockOld _ -> ()                                   (* blocked *)
+     | PUnlockOldN _ -> if lin_has_table (int_of_nat head) then e ()
+     | _ -> e ())                                         (* found *)
+  | PUnlockOldN _ -> if to_end_miss then e ()
+  | PUnlockTop _ -> e ()
+  | PRdUnlock _ -> e ()
+  | PWrRin _ | PWrWait2 _ -> (match th.th_pc with PWrUnlock -> e () | _ -> ())
+  | _ -> ()
+
+let items_by_table tabs =
+  List.filter (fun (_, l) -> l <> [])
+    (List.map (fun t -> (int_of_nat t.t_bits,
+                         List.concat (List.mapi (fun i b -> List.map (fun (k, v) -> (i, string_of_n k, string_of_n v)) b.b_items) t.t_bkts)))
+       tabs)
+let lin_compare (c : cfg) =
+  match !lin_state with
+  | None -> ""
+  | Some l ->
+    if l.l_bad then "" else begin
+      (match !lin_err with
+       | Some _ -> ()
+       | None ->
+         if items_by_table l.l_h.h_tabs <> items_by_table (chain c) then lin_fail "final tables differ";
+         List.iteri (fun t th ->
+             let mine = List.rev (List.filter_map (fun ((u, o), r) -> if int_of_nat u = t then Some (o, r) else None) l.l_log) in
+             let theirs = List.map (fun (((o, r), _), _) -> (o, r)) (List.rev th.th_done) in
+             if mine <> theirs then lin_fail (Printf.sprintf "results of thread %d differ" t)) c.g_thr;
+         if List.exists (fun th -> th.lt_pc <> LIdle || th.lt_ops <> []) l.l_thr && all_done c then lin_fail "did not finish");
+      match !lin_err with Some m -> " <critical-section model disagrees: " ^ m ^ ">" | None -> ""
+    end
 
 (* the sequential model and the atomic-step model run by one thread must agree (i / f / r only) *)
 let cross_check bits hint maxb ops =
@@ -131,9 +199,15 @@ let () =
           let tops = List.map (fun s -> parse_cops (words s)) (split_on '/' thr) in
           let nt = List.length tops in
           let c0 = cinit (nat_of_int bits) (z_of_int hint) (z_of_int maxb) [pre_ops] in
-          let (c1, _, _) = run_sched c0 1 [] 100000 in
+          lin_err := None;
+          lin_state := Some (linit (nat_of_int bits) (z_of_int hint) (z_of_int maxb) [pre_ops]);
+          let (c1, _, _) = run_sched ~obs:lin_obs c0 1 [] 100000 in
           let c2 = restart c1 tops in
-          let (c, steps, dl) = run_sched c2 nt (ints sc) 20000 in
+          (match !lin_state with
+           | Some l -> lin_state := Some { l_h = l.l_h; l_thr = List.map (fun p -> { lt_pc = LIdle; lt_ops = p }) tops;
+                                           l_log = []; l_bad = l.l_bad }
+           | None -> ());
+          let (c, steps, dl) = run_sched ~obs:lin_obs c2 nt (ints sc) 20000 in
           let b = Buffer.create 256 in
           List.iteri (fun t th ->
               Buffer.add_string b (Printf.sprintf "t%d:" t);
@@ -144,7 +218,7 @@ let () =
           Buffer.add_string b (Printf.sprintf " | rw=%d,%d,%d,%d | steps:" (int_of_z c.g_rw.rin) (int_of_z c.g_rw.rout)
                                  (int_of_z c.g_rw.win) (int_of_z c.g_rw.wout));
           Array.iter (fun s -> Buffer.add_string b (" " ^ string_of_int s)) steps;
-          Buffer.contents b ^ (if dl then " <deadlock>" else "")
+          Buffer.contents b ^ (if dl then " <deadlock>" else lin_compare c)
         | _ -> "<bad case>"
       end else "<bad case>"
     | _ -> "<bad case>")
